@@ -87,7 +87,7 @@ func peerAddr(i int) *net.UDPAddr {
 	return &net.UDPAddr{IP: net.IPv4(10, 1, 0, byte(i)).To4(), Port: 5000}
 }
 
-func patternNames() []string { return []string{"idle", "both60", "both10", "burst", "newpeer"} }
+func patternNames() []string { return []string{"idle", "both60", "both10", "burst", "newpeer", "sameip"} }
 
 // makeTraffic builds the (deterministic) schedule of a pattern up to horizon.
 func makeTraffic(name string, horizon time.Duration) traffic {
@@ -130,6 +130,11 @@ func makeTraffic(name string, horizon time.Duration) traffic {
 		for p := range npeers {
 			every(&tr.Peer, peerPhase, time.Minute, p)
 		}
+	case "sameip": // the app talks to peer 0 only; peer 2 (peer 0's IP, another port) is covered by the same permission and sends too
+		npeers = 3
+		every(&tr.App, appPhase, time.Minute, 0)
+		every(&tr.Peer, peerPhase-20*time.Second, 10*time.Second, 0)
+		every(&tr.Peer, peerPhase-15*time.Second, 10*time.Second, 2)
 	case "newpeer": // a single write to a peer never used before every 7 minutes
 		for j, t := 0, appPhase; t <= horizon; j, t = j+1, t+7*time.Minute {
 			p := j
@@ -648,7 +653,12 @@ func runOnce(t *testing.T, sc scenario) (res *runResult) { //nolint:gocognit,cyc
 						werrs = append(werrs, fmt.Sprintf("%.1fs WriteTo(peer %d) = %d, %v", time.Since(start).Seconds(), e.Peer, n, err))
 					}
 				} else {
-					permitted[e.Peer] = true
+					// permissions are per IP address: every peer on that address may send from now on
+					for i, a := range tr.Peers {
+						if a.IP.Equal(tr.Peers[e.Peer].IP) {
+							permitted[i] = true
+						}
+					}
 				}
 				mu.Unlock()
 			}
